@@ -56,5 +56,12 @@ func ToTime32(t uint32, reference time.Time) time.Time {
 	referenceNTP := ToNTP(reference) & 0xFFFF000000000000
 	tu64 := ((uint64(t) << 16) & 0x0000FFFFFFFF0000) | referenceNTP
 
-	return ToTime(tu64)
+	// The first nanosecond that is not before the 1/65536 s tick. ToTime rounds
+	// down to the nanosecond before the tick, which is more than 1/65536 s
+	// before the last instant stamped with that tick and converts back to the
+	// tick before it.
+	seconds := int64(tu64 >> 32)                                //nolint:gosec // G115
+	nanos := (int64(tu64>>16&0xFFFF)*1000000000 + 0xFFFF) >> 16 //nolint:gosec // G115
+
+	return time.Unix(seconds-2208988800, nanos)
 }
